@@ -35,3 +35,19 @@ def norm_log(s):
     if z3.is_app(a) and a.decl().kind()==z3.Z3_OP_UNINTERPRETED and a.decl().name()=='exp': return SymReal(a.arg(0))
     return SymReal(F['log'](a))
 SymReal.exp = norm_exp; SymReal.log = norm_log
+_old_pow = SymReal.__pow__
+def _pow(s, o):
+    if isinstance(o, SymReal): return (o * s.log()).exp()
+    return _old_pow(s, o)
+def _rpow(s, o): return (s * SymReal(R(o)).log()).exp()
+SymReal.__pow__ = _pow; SymReal.__rpow__ = _rpow
+_otd, _ortd = SymReal.__truediv__, SymReal.__rtruediv__
+def _td(s,o):
+    if isinstance(o,np.ndarray): return NotImplemented
+    if isinstance(o,SymReal): Ctx.cur.side.append(o.e != 0)
+    return _otd(s,o)
+def _rtd(s,o):
+    if isinstance(o,np.ndarray): return NotImplemented
+    Ctx.cur.side.append(s.e != 0)
+    return _ortd(s,o)
+SymReal.__truediv__=_td; SymReal.__rtruediv__=_rtd
